@@ -110,9 +110,19 @@ static bool textDefined(const std::string& b)
 {
 	bool u16 = b.size() >= 2 && (((unsigned char)b[0] == 0xff && (unsigned char)b[1] == 0xfe) || ((unsigned char)b[0] == 0xfe && (unsigned char)b[1] == 0xff));
 	if (!u16) return nulFree(b);
+	// UTF-16: no zero unit, and well-formed surrogate pairs (text() is specified for encodings of scalar values; bytes
+	// appended to such a file by the text calls generally are not)
+	bool le = (unsigned char)b[0] == 0xff;
+	bool wantTrail = false;
 	for (size_t i = 2; i + 1 < b.size(); i += 2)
-		if (b[i] == 0 && b[i + 1] == 0) return false;
-	return true;
+	{
+		unsigned u = le ? (unsigned char)b[i] | ((unsigned char)b[i + 1] << 8) : (unsigned char)b[i + 1] | ((unsigned char)b[i] << 8);
+		if (u == 0) return false;
+		bool lead = u >= 0xD800 && u <= 0xDBFF, trail = u >= 0xDC00 && u <= 0xDFFF;
+		if (wantTrail != trail) return false;
+		wantTrail = lead;
+	}
+	return !wantTrail;
 }
 
 struct Exec
